@@ -273,6 +273,40 @@ package stree
 //@   at exit: ghost t.elems = setdel(t.elems, rank(t.compare, key))
 //@   call rewrite#1: cmp = t.compare
 //@
+// extract builds a search tree from a slice of pairwise different nodes sorted by strictly ascending rank (what New
+// passes after sorting and compacting): the ghost fields of every node of the slice are set on the way back up.
+// ni and ki are witnesses: the position in the slice of every node, respectively of every key, of the result.
+//@ func extract
+//@   ghost cmp func(T, T) int
+//@   ghostret ni imap[int], ki imap[int]
+//@   requires [C01] live: forall k int :: {nodes[k]} 0 <= k && k < len(nodes) ==> nodes[k] != nil && allocated(nodes[k])
+//@   requires [C01] apart: forall a int, b int :: {nodes[a], nodes[b]} 0 <= a && a < b && b < len(nodes) ==> nodes[a] != nodes[b]
+//@   requires [C01] sorted: forall a int, b int :: {nodes[a], nodes[b]} 0 <= a && a < b && b < len(nodes) ==> rank(cmp, nodes[a].X) < rank(cmp, nodes[b].X)
+//@   ensures  [C01] nil: (len(nodes) == 0) == (result == nil)
+//@   ensures  [C01] shape: treeOK(result, cmp) && cntOf(result) == len(nodes)
+//@   ensures  [C01] members: forall k int :: {nodes[k]} 0 <= k && k < len(nodes) ==> inD(result, nodes[k]) && inK(result, rank(cmp, nodes[k].X)) && result.rep[rank(cmp, nodes[k].X)] == nodes[k].X
+//@   ensures  [C01] onlyNodes: forall y ref :: {inD(result, y)} inD(result, y) ==> 0 <= ni[y] && ni[y] < len(nodes) && nodes[ni[y]] == y
+//@   ensures  [C01] onlyKeys: forall k int :: {inK(result, k)} inK(result, k) ==> 0 <= ki[k] && ki[k] < len(nodes) && rank(cmp, nodes[ki[k]].X) == k
+//@   ensures  [C01] values: forall y *node[T] :: {y.X} old(allocated(y)) ==> y.X == old(y.X)
+//@   ensures  [C01] frame: forall y *node[T] :: {y.left} {y.right} {y.keys} {y.desc} old(allocated(y)) && !inD(result, y) ==> sameNode(y)
+//@   ensures  [C01] slice: unchanged(elems(nodes))
+//@   modifies every(root.left), every(root.right), every(root.keys), every(root.desc), every(root.cnt), every(root.rep)
+//@   decreases len(nodes)
+//@   call extract#1: cmp = cmp
+//@   call extract#2: cmp = cmp
+//@   at return 1: ghost ni = lambda y int :: 0
+//@   at return 1: ghost ki = lambda k int :: 0
+//@   at after "root.left = extract(nodes[:mid])": ghost niL = extract_ni
+//@   at after "root.left = extract(nodes[:mid])": ghost kiL = extract_ki
+//@   at after "root.right = extract(nodes[mid+1:])": ghost niR = extract_ni
+//@   at after "root.right = extract(nodes[mid+1:])": ghost kiR = extract_ki
+//@   at after "root.right = extract(nodes[mid+1:])": ghost root.keys = lambda k int :: k == rank(cmp, root.X) || inK(root.left, k) || inK(root.right, k)
+//@   at after "root.right = extract(nodes[mid+1:])": ghost root.desc = lambda y int :: y == root || inD(root.left, y) || inD(root.right, y)
+//@   at after "root.right = extract(nodes[mid+1:])": ghost root.cnt = 1 + cntOf(root.left) + cntOf(root.right)
+//@   at after "root.right = extract(nodes[mid+1:])": ghost root.rep = lambda k int :: ite(k == rank(cmp, root.X), root.X, ite(inK(root.left, k), root.left.rep[k], root.right.rep[k]))
+//@   at after "root.right = extract(nodes[mid+1:])": ghost ni = lambda y int :: ite(y == root, mid, ite(inD(root.left, y), niL[y], mid + 1 + niR[y]))
+//@   at after "root.right = extract(nodes[mid+1:])": ghost ki = lambda k int :: ite(k == rank(cmp, root.X), mid, ite(inK(root.left, k), kiL[k], mid + 1 + kiR[k]))
+//@
 // Clone. node.clone copies the subtree into fresh nodes with the same keys, counts and representatives; nothing that
 // existed before is touched, so the original and the copy share no node: a later change to either (whose contracts
 // confine their writes to the nodes of the tree they are given) cannot show in the other.
